@@ -135,3 +135,321 @@ class ModQuot(Harness):
         q = an / ad
         want = z3.If((n < 0) != (d < 0), -q, q)
         return mkbool(z3.And(d != 0, rz == want))
+
+
+# ------------------------------------------------------------------------------------------------
+LO40, HI40 = -(2 ** 39), 2 ** 39 - 1
+
+
+def T(x):
+    return x is True or (x is not False and bool(x))
+
+
+@register
+class Hex(Harness):
+    name = 'C17.hex'
+    prop = 'C17'
+    doc = 'HEX2DEC(DEC2HEX(n)) = n over the whole 40-bit two\'s-complement range; values outside it give an error'
+    functions = ('engineering.DEC2HEX', 'engineering.HEX2DEC', 'utils.parse_number')
+    bounds = 'every n in -2^39 .. 2^39-1 (split by sign and hex digit count through the model of hex()); outside: every n in ' \
+             '+-2^41 beyond the range; HEX2DEC of 11-digit texts'
+
+    def cases(self, tier):
+        return [{'r': 'in'}, {'r': 'above'}, {'r': 'below'}, {'r': 'text11'}]
+
+    def build(self, e, p):
+        if p['r'] == 'in':
+            return {'n': e.fresh_int('n', LO40, HI40)}
+        if p['r'] == 'above':
+            return {'n': e.fresh_int('n', HI40 + 1, 2 ** 41)}
+        if p['r'] == 'below':
+            return {'n': e.fresh_int('n', -(2 ** 41), LO40 - 1)}
+        s = e.fresh_str('h', 11, alphabet=[(48, 57), (65, 70)])
+        e.add(s.cps[0] != 48)
+        return {'h': s}
+
+    def run(self, env, inp, p):
+        if p['r'] == 'text11':
+            return self.parse_with(env, 'HEX2DEC(vh)', {'vh': inp['h']})
+        if p['r'] == 'in':
+            return self.parse_with(env, 'HEX2DEC(DEC2HEX(vn))', {'vn': inp['n']})
+        return self.parse_with(env, 'DEC2HEX(vn)', {'vn': inp['n']})
+
+    def post(self, env, inp, out, p):
+        if p['r'] == 'in':
+            return And(ok_result(out), isint(out['result']) and out['result'] == inp['n'])
+        return any_error(out)
+
+
+DIGITS36 = '0123456789ABCDEFGHIJKLMNOPQRSTUVWXYZ'
+
+
+@register
+class Base(Harness):
+    name = 'C17.base'
+    prop = 'C17'
+    termination = True
+    doc = 'DECIMAL(BASE(n,r),r) = n for every radix 2..36 with letter digits above 9; radix outside 2..36 or a negative number ' \
+          'give an error; every call terminates'
+    functions = ('mathtrig.BASE', 'mathtrig.DECIMAL')
+    bounds = '0 <= n < 2^39 (quick: < 2^20) for each radix 2..36; bad radix: -3..1 and 37..40 with |n| <= 4096; negative n: -4096..-1; ' \
+             'termination: iteration budget of the engine, confirmed by replay under a line-event budget'
+    max_ticks = 3000
+    step_budget = 300000
+
+    def cases(self, tier):
+        out = [{'radix': r, 'mode': 'ok'} for r in range(2, 37)]
+        out += [{'radix': r, 'mode': 'badradix'} for r in (-3, -1, 0, 1, 37, 40)]
+        out += [{'radix': r, 'mode': 'neg'} for r in (2, 10, 16)]
+        return out
+
+    def build(self, e, p):
+        if p['mode'] == 'ok':
+            return {'n': e.fresh_int('n', 0, 2 ** 39 - 1)}
+        if p['mode'] == 'neg':
+            return {'n': e.fresh_int('n', -4096, -1)}
+        return {'n': e.fresh_int('n', -4096, 4096)}
+
+    def run(self, env, inp, p):
+        vs = {'vn': inp['n'], 'vr': p['radix']}
+        if p['mode'] == 'ok':
+            return [self.parse_with(env, 'BASE(vn,vr)', vs), self.parse_with(env, 'DECIMAL(BASE(vn,vr),vr)', vs)]
+        return [self.parse_with(env, 'BASE(vn,vr)', vs)]
+
+    def post(self, env, inp, out, p):
+        if isinstance(out, Raised) or not all(is_record(o) for o in out):
+            return False
+        if p['mode'] != 'ok':
+            return any_error(out[0])
+        b, d = out
+        if not ok_result(b) or not isstr(b['result']):
+            return False
+        from ..values import cps_of, zcp
+        r = p['radix']
+        okdigits = []
+        val = z3.IntVal(0)
+        for c in cps_of(b['result']):
+            c = zcp(c)
+            v = z3.If(c <= 57, c - 48, c - 55)
+            okdigits.append(z3.And(z3.Or(z3.And(c >= 48, c <= 57), z3.And(c >= 65, c <= 90)), v < r))
+            val = val * r + v
+        return And(mkbool(z3.simplify(z3.And(*okdigits))), mkbool(z3.simplify(val == zint(inp['n']))),
+                   ok_result(d), isint(d['result']) and d['result'] == inp['n'])
+
+
+@register
+class Rounding(Harness):
+    name = 'C17.rounding'
+    prop = 'C17'
+    doc = 'ROUND / ROUNDUP / ROUNDDOWN on integers: a multiple of 10^-digits within half a unit / at or above / at or below in magnitude'
+    functions = ('mathtrig.ROUND', 'mathtrig.ROUNDUP', 'mathtrig.ROUNDDOWN')
+    bounds = 'every integer |n| < 2^50, digits -6..6 (ROUND), 0..6 (ROUNDUP / ROUNDDOWN)'
+    outside = ('decimal fractions', 'ROUNDUP / ROUNDDOWN with negative digits (the float kernel ceil(n * 10^d) is beyond the abstraction)')
+
+    def cases(self, tier):
+        out = [{'fn': 'ROUND', 'd': d} for d in range(-6, 7)]
+        out += [{'fn': f, 'd': d} for f in ('ROUNDUP', 'ROUNDDOWN') for d in range(0, 7)]
+        return out
+
+    def build(self, e, p):
+        return {'n': e.fresh_int('n', -(2 ** 50), 2 ** 50)}
+
+    def run(self, env, inp, p):
+        return self.parse_with(env, '%s(vn,%d)' % (p['fn'], p['d']), {'vn': inp['n']})
+
+    def post(self, env, inp, out, p):
+        if not ok_result(out):
+            return False
+        rz = as_intval(out['result'])
+        if rz is None:
+            return False
+        n = zint(inp['n'])
+        d = p['d']
+        if d >= 0:
+            return mkbool(z3.simplify(rz == n))
+        m = 10 ** (-d)
+        return mkbool(z3.simplify(z3.And(rz % m == 0, 2 * (rz - n) <= m, 2 * (n - rz) <= m)))
+
+
+@register
+class CeilFloor(Harness):
+    name = 'C17.ceilfloor'
+    prop = 'C17'
+    doc = 'CEILING / FLOOR return the adjacent multiple of the significance on the documented side'
+    functions = ('mathtrig.CEILING', 'mathtrig.FLOOR')
+    bounds = 'every integer |n| < 2^50; significance split concretely over +-1..12 (quick) / +-1..64 (thorough) and 0'
+    outside = ('decimal numbers or significances',)
+
+    def cases(self, tier):
+        ss = list(range(1, 13)) if tier == 'quick' else list(range(1, 65))
+        out = []
+        for fn in ('CEILING', 'FLOOR'):
+            out.append({'fn': fn, 's': 0})
+            for s in ss:
+                out.append({'fn': fn, 's': s})
+                out.append({'fn': fn, 's': -s})
+        return out
+
+    def build(self, e, p):
+        return {'n': e.fresh_int('n', -(2 ** 50), 2 ** 50)}
+
+    def run(self, env, inp, p):
+        return self.parse_with(env, '%s(vn,vs)' % p['fn'], {'vn': inp['n'], 'vs': p['s']})
+
+    def post(self, env, inp, out, p):
+        if not is_record(out):
+            return False
+        n, s, fn = zint(inp['n']), p['s'], p['fn']
+        if s == 0:
+            return And(ok_result(out), as_intval(out['result']) is not None and mkbool(z3.simplify(as_intval(out['result']) == 0)))
+        a = abs(s)
+        if fn == 'FLOOR' and s < 0:
+            pos = mkbool(z3.simplify(n > 0))
+            if T(pos):
+                return err_is(out, '#NUM!')
+        if not ok_result(out):
+            return False
+        rz = as_intval(out['result'])
+        if rz is None:
+            return False
+        up = z3.And(rz % a == 0, rz >= n, rz - a < n)       # least multiple >= n
+        down = z3.And(rz % a == 0, rz <= n, rz + a > n)     # greatest multiple <= n
+        if fn == 'CEILING':
+            want = z3.If(z3.Or(n >= 0, s > 0), up, down)
+        else:
+            want = z3.If(z3.Or(n >= 0, s > 0), down, up)
+        return mkbool(z3.simplify(want))
+
+
+@register
+class Factorials(Harness):
+    name = 'C17.fact'
+    prop = 'C17'
+    doc = 'FACT / FACTDOUBLE are the factorial and double factorial; negative arguments give an error'
+    functions = ('mathtrig.FACT', 'mathtrig.FACTDOUBLE')
+    bounds = 'n in -10..20 (each value its own path: an enumeration in effect)'
+
+    def cases(self, tier):
+        return [{'fn': 'FACT'}, {'fn': 'FACTDOUBLE'}]
+
+    def build(self, e, p):
+        return {'n': e.fresh_int('n', -10, 20)}
+
+    def run(self, env, inp, p):
+        return self.parse_with(env, '%s(vn)' % p['fn'], {'vn': inp['n']})
+
+    def post(self, env, inp, out, p):
+        if not is_record(out):
+            return False
+        n = inp['n']
+        if T(n < 0):
+            return any_error(out)
+        from ..values import concretize_int
+        k = concretize_int(n, 0, 20, 'n') if env.symbolic else n
+        import math
+        if p['fn'] == 'FACT':
+            want = math.factorial(k)
+        else:
+            want = 1
+            j = k
+            while j > 1:
+                want *= j
+                j -= 2
+        return And(ok_result(out), isint(out['result']) and out['result'] == want)
+
+
+ROMAN_VAL = {'I': 1, 'V': 5, 'X': 10, 'L': 50, 'C': 100, 'D': 500, 'M': 1000}
+
+
+def roman_value(s):
+    """general subtractive reading of a Roman numeral (a smaller value before a larger one is subtracted)"""
+    vals = [ROMAN_VAL.get(ch) for ch in s]
+    if not vals or any(v is None for v in vals):
+        return None
+    tot = 0
+    for i, v in enumerate(vals):
+        if any(w > v for w in vals[i + 1:i + 2]) or (i + 1 < len(vals) and vals[i + 1] > v):
+            tot -= v
+        else:
+            tot += v
+    return tot
+
+
+QUICK_ROMAN_RANGES = [(1, 20), (21, 40), (41, 60), (90, 110), (390, 410), (490, 510), (890, 910), (990, 1010), (1990, 2010), (3980, 3999)]
+
+
+class _RomanBase(Harness):
+    prop = 'C17'
+    functions = ('mathtrig.ROMAN', 'mathtrig.ARABIC')
+    bounds = 'forms 0..4; quick: n in the ranges 1-60, 90-110, 390-410, 490-510, 890-910, 990-1010, 1990-2010, 3980-3999; thorough: ' \
+             'every n in 1..3999.  Each n is its own path class (the numeral is assembled from repetition counts), so this ' \
+             'harness is an enumeration in effect and is stated as such'
+    case_timeout_s = {'quick': 200, 'thorough': 2400}
+
+    def cases(self, tier):
+        out = []
+        for f in range(5):
+            if tier == 'quick':
+                rs = QUICK_ROMAN_RANGES
+            else:
+                rs = [(lo, min(3999, lo + 99)) for lo in range(1, 4000, 100)]
+            for lo, hi in rs:
+                out.append({'form': f, 'lo': lo, 'hi': hi})
+        return out
+
+    def build(self, e, p):
+        return {'n': e.fresh_int('n', p['lo'], p['hi'])}
+
+
+@register
+class RomanDenotes(_RomanBase):
+    name = 'C17.roman_denotes'
+    doc = 'every conciseness form of ROMAN(n, f) is a numeral denoting n (general subtractive reading, evaluated independently)'
+
+    def run(self, env, inp, p):
+        return self.parse_with(env, 'ROMAN(vn,%d)' % p['form'], {'vn': inp['n']})
+
+    def post(self, env, inp, out, p):
+        if not ok_result(out) or not isinstance(out['result'], str):
+            return False
+        denotes = roman_value(out['result'])
+        return denotes is not None and (inp['n'] == denotes)
+
+
+@register
+class RomanArabic(_RomanBase):
+    name = 'C17.roman_arabic'
+    doc = 'ARABIC(ROMAN(n, f)) = n'
+
+    def run(self, env, inp, p):
+        vs = {'vn': inp['n']}
+        r = self.parse_with(env, 'ROMAN(vn,%d)' % p['form'], vs)
+        r0 = self.parse_with(env, 'ROMAN(vn,0)', vs)
+        # derived input used by the known-finding region: the numeral differs from the classic (form 0) spelling
+        inp['concise'] = bool(is_record(r) and is_record(r0) and r['result'] != r0['result'])
+        return self.parse_with(env, 'ARABIC(ROMAN(vn,%d))' % p['form'], vs)
+
+    def post(self, env, inp, out, p):
+        return And(ok_result(out), isint(out['result']) and out['result'] == inp['n'])
+
+
+@register
+class ComplexParts(Harness):
+    name = 'C17.complex'
+    prop = 'C17'
+    doc = 'IMREAL / IMAGINARY recover the integer parts given to COMPLEX'
+    functions = ('engineering.COMPLEX', 'engineering.IMREAL', 'engineering.IMAGINARY', 'utils.parse_complex')
+    bounds = 'all integers |a|, |b| < 2^53'
+
+    def build(self, e, p):
+        return {'a': e.fresh_int('a', -(2 ** 53) + 1, 2 ** 53 - 1), 'b': e.fresh_int('b', -(2 ** 53) + 1, 2 ** 53 - 1)}
+
+    def run(self, env, inp, p):
+        vs = {'va': inp['a'], 'vb': inp['b']}
+        return [self.parse_with(env, 'IMREAL(COMPLEX(va,vb))', vs), self.parse_with(env, 'IMAGINARY(COMPLEX(va,vb))', vs)]
+
+    def post(self, env, inp, out, p):
+        if isinstance(out, Raised) or not all(ok_result(o) for o in out):
+            return False
+        re_, im = out[0]['result'], out[1]['result']
+        return And(isint(re_) and re_ == inp['a'], isint(im) and im == inp['b'])
